@@ -292,7 +292,7 @@ def run_job(spec):
             # where the path allows it.  Effects outside the model (float rounding, wrap-around in compiled code) tend to sit there;
             # a disagreement is judged by the oracle on the REAL outcome exactly like a witness mismatch.
             stop = False
-            if getattr(H, "boundary_witnesses", False):
+            if getattr(H, "boundary_witnesses", False) or (isinstance(skel, dict) and skel.get("boundary_witnesses")):
                 ints = [nm for nm in V.names if V.kinds[nm] == "int" and V.vars[nm].hi is not None and V.vars[nm].lo is not None]
                 for side in ("hi", "lo"):
                     s.push()
